@@ -395,6 +395,32 @@ def const_refs():
     return defn("dry_const_refs_sorted", "bool", "true" if sorted_refs else "false")
 
 
+def package_rule_ids():
+    """per package of src/linters: the rule ids its code can put on a violation, as far as they are literals
+    (`rule_id` property returning a literal, `rule_id="..."` keyword arguments)"""
+    from translator.lib import REPO
+    rows = []
+    base = REPO / "src/linters"
+    for pkg in sorted(p.name for p in base.iterdir() if p.is_dir() and (p / "__init__.py").exists()):
+        ids = set()
+        for f in sorted((base / pkg).rglob("*.py")):
+            mod = parse(str(f.relative_to(REPO)))
+            for n in ast.walk(mod):
+                if isinstance(n, (ast.FunctionDef, ast.AsyncFunctionDef)) and n.name == "rule_id":
+                    for r in ast.walk(n):
+                        if isinstance(r, ast.Return) and isinstance(r.value, ast.Constant) and isinstance(r.value.value, str):
+                            ids.add(r.value.value)
+                if isinstance(n, ast.Call):
+                    for kw in n.keywords:
+                        if kw.arg == "rule_id" and isinstance(kw.value, ast.Constant) and isinstance(kw.value.value, str):
+                            ids.add(kw.value.value)
+        if not ids:
+            raise Unsupported(f"package {pkg}: no literal rule id found")
+        rows.append((pkg, sorted(ids)))
+    return defn("package_rule_ids", "list (string * list string)",
+                coq_list([f"({coq_string(p)}, {coq_str_list(i)})" for p, i in rows]))
+
+
 ITEMS = [
     ("entry_points", entry_points),
     ("dry_finalize_resets", dry_finalize),
@@ -407,4 +433,5 @@ ITEMS = [
     ("cache_keys", cache_keys),
     ("dry_sql", dry_sql),
     ("dry_const_refs", const_refs),
+    ("package_rule_ids", package_rule_ids),
 ]
